@@ -85,6 +85,11 @@ def execute(c):
         an = c.get("anchor", "edge")
         anchor = ANCHOR.get(an) if an in ANCHOR else (xy_(0.0, 0.5) if an == "xy" else xy_(0.75, 0.25))
         tol = c["tol"][0] / c["tol"][1]
+        hsh = abs(c.get("l", 0)) + 3 * abs(c.get("b", 0)) + c.get("spx", c.get("nx", 0)) + (1 if c["tight"] else 0)
+        if an in ("edge", "center", "floating") and hsh % 2 == 1:
+            # the same anchors given as enumeration members instead of strings
+            from odc.geo.types import AnchorEnum
+            anchor = {"edge": AnchorEnum.EDGE, "center": AnchorEnum.CENTER, "floating": AnchorEnum.FLOATING}[an]
         kw = dict(tight=c["tight"], anchor=anchor, tol=tol)
         if mode == "res":
             rx, ry = c["rx"] / S, c["ry"] / S
@@ -111,7 +116,14 @@ def execute(c):
             gb = GeoBox.from_bbox((l, b, r, t), CRS_A, **kw)
         elif route == "polygon":
             poly = G.polygon([(l, b), (r, b), (r, t), (l, (b + t) / 2), (l, b)], CRS_A) if False else G.polygon([(l, b), (r, b), (r, t), (l, t), (l, b)], CRS_A)
-            gb = GeoBox.from_geopolygon(poly, **kw)
+            if mode == "res" and an in ("edge", "quarter", "xy", "xy2") and hsh % 3 == 0:
+                # the deprecated spelling of the same request: align = anchor in CRS units
+                fx, fy = {"edge": (0.0, 0.0), "quarter": (0.25, 0.25), "xy": (0.0, 0.5), "xy2": (0.75, 0.25)}[an]
+                kw2 = dict(kw, align=xy_(fx * abs(rx), fy * abs(ry)))
+                kw2.pop("anchor")
+                gb = GeoBox.from_geopolygon(poly, **kw2)
+            else:
+                gb = GeoBox.from_geopolygon(poly, **kw)
         elif route == "polygon_other_crs":
             dx, dy = 1024, 2048
             poly = G.polygon([(l + dx, b + dy), (r + dx, b + dy), (r + dx, t + dy), (l + dx, t + dy), (l + dx, b + dy)], CRS_B)
